@@ -299,3 +299,40 @@ def canon_comprehension(node):
             apply(k, lambda n, old=old: isinstance(n, ast.Name) and n.id == old, ast.Name(id=new, ctx=ast.Load()))
             t.id = new
     return ast.unparse(ast.fix_missing_locations(node))
+
+
+def runs_after(fn, first, second):
+    """`second` can execute after `first` in one run of fn: they are not in different arms of the same if, and `second` comes later in the block that
+    holds both (a loop around both counts as "after" too)."""
+    def chain(target):
+        path = []
+
+        def find(node, acc):
+            for fld in ('body', 'orelse', 'finalbody', 'handlers'):
+                sub = getattr(node, fld, None)
+                if not isinstance(sub, list):
+                    continue
+                for i, st in enumerate(sub):
+                    if st is target or any(n is target for n in ast.walk(st)):
+                        acc.append((node, fld, i))
+                        if st is target:
+                            return True
+                        if isinstance(st, ast.ExceptHandler) or hasattr(st, 'body'):
+                            if find(st, acc):
+                                return True
+                        return True
+            return False
+        find(fn, path)
+        return path
+    a, b = chain(first), chain(second)
+    for (na, fa, ia), (nb, fb, ib) in zip(a, b):
+        if na is not nb:
+            break
+        if fa != fb:
+            return isinstance(na, (ast.For, ast.While)) and False    # different arms of one statement: exclusive (if/else, try/except)
+        if ia != ib:
+            if ib > ia:
+                return True
+            # earlier in the block: only a loop around both brings it after
+            return any(isinstance(n, (ast.For, ast.While)) for n, _f, _i in a[:a.index((na, fa, ia))])
+    return False
